@@ -38,7 +38,8 @@ def membership_frames(rep, res, entry, rule="R-QTY"):
         pf, bf = P.flat(), B.flat()
         if pf.unit is not None and bf.unit is not None:
             n += 1
-            rep.check(rule, "membership operands share a unit", pf.unit == bf.unit, where=ev.loc, construct=ev.text(), entry=entry,
+            from ..values import ueq
+            rep.check(rule, "membership operands share a unit", ueq(pf.unit, bf.unit)[0], where=ev.loc, construct=ev.text(), entry=entry,
                       config=res.config, msg=f"vertex cloud in [{ustr(pf.unit)}], targets in [{ustr(bf.unit)}]")
         if pf.frame is not None and bf.frame is not None:
             n += 1
@@ -48,6 +49,9 @@ def membership_frames(rep, res, entry, rule="R-QTY"):
                            f"one of them was not shifted by the common offset / does not include the baseline") if not ok else "")
         elif (pf.frame is None) != (bf.frame is None):
             kn = pf.frame if pf.frame is not None else bf.frame
+            other = bf if pf.frame is not None else pf
+            if other.unit == "POLY" or other.tag("zero_init"):
+                continue        # the origin (zeros) is a point of every centred frame
             if isinstance(kn, tuple) and kn[0] in ("DIFF", "CENT"):
                 n += 1
                 rep.violated(rule, "membership operands share a frame", where=ev.loc, construct=ev.text(), entry=entry,
@@ -58,7 +62,10 @@ def membership_frames(rep, res, entry, rule="R-QTY"):
 
 def _fr(f):
     if isinstance(f, tuple):
-        return f"{f[0]}(offset@{f[1][2] if isinstance(f[1], tuple) and len(f[1]) > 2 else '?'})"
+        o = f[1]
+        if isinstance(o, tuple) and len(o) > 2 and o[0] == "off":
+            return f"{f[0]}(offset computed at line {o[2]} of {str(o[1]).split(':')[-1]})"
+        return f"{f[0]}(…)"
     return str(f)
 
 
